@@ -561,6 +561,27 @@ def _is_prev(t, variant):
     return t[0] == "field" and t[2] == variant and t[3] == "prev" and strip_refs(t[1]) == ("param", 1)
 
 
+def _unguarded_string_arm(v, bb):
+    """bb lies in a `String` arm of a match on the value and no boolean test (a guard on the string's content) lies between
+    the arm's entry and bb"""
+    for sb in sorted(v.reach):
+        info = v.switch_info(sb)
+        if not info or info["kind"] != "discr":
+            continue
+        for lb, tgt in info["edges"]:
+            if lb != "String":
+                continue
+            rs = v.reachable(tgt) | {tgt}
+            if bb not in rs:
+                continue
+            for gb in rs:
+                gi = v.switch_info(gb)
+                if gi and gi["kind"] != "discr" and gb != bb and bb in v.reachable(gb):
+                    return False
+            return True
+    return False
+
+
 def value_rules(crate, res):
     b = find(crate, "errors::json::value_description_with_kind_json")
     fs = []
@@ -584,6 +605,10 @@ def value_rules(crate, res):
                 direct = term_mentions(a2, lambda x: x == ("param", 1)) and not term_mentions(a2, lambda x: x[0] == "call")
                 if direct and c2.name == "new_debug":
                     fs.append(fnd("C14.VALUE", v, "a part of the offending value is quoted with Rust's Debug formatting, which is not JSON text (control and non-printable characters are escaped differently)", bb2))
+                elif direct and term_mentions(a2, lambda x: x[0] == "field" and x[2] == "String") and _unguarded_string_arm(v, bb2):
+                    # Display of a str escapes nothing: for a string holding a quote, a backslash or a control character the
+                    # text is not JSON, whatever surrounds it (no test of the string's content lies between the arm and here)
+                    fs.append(fnd("C14.VALUE", v, "the string inside the offending value is written with Display (nothing is escaped) instead of by the JSON serialiser: not JSON text for a string holding a quote, a backslash or a control character", bb2))
                 elif direct:
                     f_ = fnd("C14.VALUE", v, "a part of the offending value is rendered by hand (Display) instead of by the JSON serialiser: whether the text is the same was not read: not recognised (undecided)", bb2)
                     f_.undecided = True
